@@ -24,6 +24,7 @@ func (c *cluster) fairSuffix(maxRounds int) (msg string) {
 		}
 	}()
 	c.fair = true
+	c.partition = 0 // heal
 	saved := c.cfg
 	tmp := *saved
 	tmp.MaxDev = 0
